@@ -64,7 +64,29 @@ _CMP = {
 }
 
 
+_SAFE_METHODS = {
+    "list": ("append", "insert", "extend", "index", "count", "copy", "pop", "sort", "reverse"),
+    "dict": ("items", "keys", "values", "get", "copy"),
+    "str": ("encode", "split", "rsplit", "startswith", "endswith", "strip", "join", "format", "lower", "upper", "replace", "count"),
+    "bytes": ("decode", "startswith", "endswith"),
+    "tuple": ("index", "count"),
+}
+_PY_TYPES = {"int": int, "float": float, "str": str, "bytes": bytes, "list": list, "dict": dict, "tuple": tuple, "bool": bool, "bytearray": bytearray, "set": set}
+
+
 class Evaluator:
+    def ev_args(self, call: ast.Call):
+        out = []
+        for a in call.args:
+            if isinstance(a, ast.Starred):
+                v = self.ev(a.value)
+                if not isinstance(v, (list, tuple)):
+                    raise Unsupported("starred non-sequence")
+                out.extend(v)
+            else:
+                out.append(self.ev(a))
+        return out
+
     def __init__(
         self,
         env: Dict[str, Any],
@@ -180,6 +202,8 @@ class Evaluator:
         if isinstance(e, (ast.GeneratorExp, ast.ListComp)) and len(e.generators) == 1 and isinstance(e.generators[0].target, ast.Name):
             g = e.generators[0]
             seq = self.ev(g.iter)
+            if isinstance(seq, Record) and callable(seq.fields.get("__iter__")):
+                seq = seq.fields["__iter__"]()
             if not isinstance(seq, (list, tuple)):
                 raise Unsupported("comprehension over a non-sequence")
             out = []
@@ -195,6 +219,11 @@ class Evaluator:
             return out
         if isinstance(e, ast.Call):
             fn = e.func
+            if isinstance(fn, ast.Name) and fn.id == "sum" and len(e.args) == 1 and fn.id not in self.env:
+                vals = self.ev(e.args[0])
+                if isinstance(vals, (list, tuple)) and all(isinstance(v, (int, bool)) for v in vals):
+                    return sum(int(v) for v in vals)
+                raise Unsupported("sum over non-integers")
             if isinstance(fn, ast.Name) and fn.id in ("max", "min", "any", "all", "sorted", "list", "tuple", "enumerate") and fn.id not in self.env:
                 args = [self.ev(a) for a in e.args]
                 kw = {k.arg: self.ev(k.value) for k in e.keywords}
@@ -220,20 +249,28 @@ class Evaluator:
                     return tuple(args[0])
                 if fn.id == "enumerate" and len(args) == 1:
                     return [(i, x) for i, x in enumerate(args[0])]
-            if isinstance(fn, ast.Name) and not e.keywords:
-                args = [self.ev(a) for a in e.args]
+            if isinstance(fn, ast.Name) and not e.keywords and not any(isinstance(a, ast.Starred) for a in e.args):
+                if fn.id == "isinstance" and len(e.args) == 2:
+                    args = [self.ev(e.args[0]), None]
+                else:
+                    args = [self.ev(a) for a in e.args]
                 if fn.id == "isinstance" and len(e.args) == 2:
                     cls = ast.unparse(e.args[1])
                     if self.isinstance_hook is not None:
                         r = self.isinstance_hook(args[0], cls)
                         if r is not None:
                             return r
+                    names = [ast.unparse(x) for x in e.args[1].elts] if isinstance(e.args[1], ast.Tuple) else [cls]
+                    if all(n in _PY_TYPES for n in names) and not isinstance(args[0], Record):
+                        return isinstance(args[0], tuple(_PY_TYPES[n] for n in names))
                     raise Unsupported(f"isinstance(_, {cls})")
+                if fn.id == "type" and len(args) == 1:
+                    return f"<type {type(args[0]).__name__}>"
                 if fn.id == "int" and len(args) == 1 and isinstance(args[0], (bool, int)):
                     return int(args[0])
                 if fn.id == "bool" and len(args) == 1:
                     return self.truth(args[0])
-                if fn.id == "len" and len(args) == 1 and isinstance(args[0], (tuple, list, str)):
+                if fn.id == "len" and len(args) == 1 and isinstance(args[0], (tuple, list, str, dict, bytes)):
                     return len(args[0])
             if isinstance(fn, ast.Attribute):
                 try:
@@ -241,9 +278,17 @@ class Evaluator:
                 except Unsupported:
                     recv = None
                 if isinstance(recv, Record) and ("()" + fn.attr) in recv.fields:
-                    args = [self.ev(a) for a in e.args]
+                    args = self.ev_args(e)
                     kw = {k.arg: self.ev(k.value) for k in e.keywords if k.arg}
                     return recv.fields["()" + fn.attr](*args, **kw)
+                if isinstance(recv, (list, dict, str, bytes, tuple)) and not isinstance(recv, Record) and fn.attr in _SAFE_METHODS.get(type(recv).__name__, ()):
+                    args = self.ev_args(e)
+                    kw = {k.arg: self.ev(k.value) for k in e.keywords if k.arg}
+                    try:
+                        r = getattr(recv, fn.attr)(*args, **kw)
+                        return list(r) if fn.attr in ("items", "keys", "values") else r
+                    except (IndexError, KeyError, ValueError, TypeError) as ex:
+                        raise PyRaise(type(ex).__name__)
             if isinstance(fn, ast.Name) and fn.id == "hasattr" and len(e.args) == 2:
                 o = self.ev(e.args[0])
                 a = self.ev(e.args[1])
@@ -252,10 +297,11 @@ class Evaluator:
             if isinstance(fn, ast.Name) and fn.id == "len" and len(e.args) == 1:
                 o = self.ev(e.args[0])
                 if isinstance(o, Record) and "__len__" in o.fields:
-                    return o.fields["__len__"]
+                    v = o.fields["__len__"]
+                    return v() if callable(v) else v
             if self.call_hook is not None:
                 name = ast.unparse(fn)
-                args = [self.ev(a) for a in e.args]
+                args = self.ev_args(e)
                 kw = {k.arg: self.ev(k.value) for k in e.keywords if k.arg}
                 r = self.call_hook(name, args, kw, self)
                 if r is not _MISSING:
@@ -324,6 +370,9 @@ class Evaluator:
             elif isinstance(st, ast.AugAssign) and isinstance(st.target, ast.Name):
                 cur = self.ev(st.target)
                 val = self.ev(st.value)
+                if isinstance(cur, list) and isinstance(st.op, ast.Add) and isinstance(val, (list, tuple)):
+                    cur.extend(val)
+                    continue
                 fake = ast.BinOp(left=ast.Constant(cur), op=st.op, right=ast.Constant(val))
                 if isinstance(cur, bool) and isinstance(val, bool) and isinstance(st.op, (ast.BitAnd, ast.BitOr)):
                     self.env[st.target.id] = (cur and val) if isinstance(st.op, ast.BitAnd) else (cur or val)
@@ -331,6 +380,8 @@ class Evaluator:
                     self.env[st.target.id] = self.ev(fake)
             elif isinstance(st, ast.For) and isinstance(st.target, (ast.Name, ast.Tuple)):
                 seq = self.ev(st.iter)
+                if isinstance(seq, Record) and callable(seq.fields.get("__iter__")):
+                    seq = seq.fields["__iter__"]()
                 if not isinstance(seq, (list, tuple)):
                     raise Unsupported("for over a non-sequence")
                 broke = False
@@ -352,6 +403,32 @@ class Evaluator:
                         continue
                 if not broke:
                     self._block(st.orelse)
+            elif isinstance(st, ast.While):
+                broke = False
+                while self.truth(self.ev(st.test)):
+                    self.steps += 1
+                    if self.steps > 10000:
+                        raise Unsupported("too many steps")
+                    try:
+                        self._block(st.body)
+                    except _Break:
+                        broke = True
+                        break
+                    except _Continue:
+                        continue
+                if not broke:
+                    self._block(st.orelse)
+            elif isinstance(st, ast.Assert):
+                if not self.truth(self.ev(st.test)):
+                    raise PyRaise("AssertionError")
+            elif isinstance(st, ast.Assign) and len(st.targets) == 1 and isinstance(st.targets[0], (ast.Tuple, ast.List)):
+                v = self.ev(st.value)
+                if not isinstance(v, (list, tuple)) or len(v) != len(st.targets[0].elts):
+                    raise Unsupported("tuple assignment shape")
+                for t, x in zip(st.targets[0].elts, v):
+                    if not isinstance(t, ast.Name):
+                        raise Unsupported("tuple assignment target")
+                    self.env[t.id] = x
             elif isinstance(st, ast.Try):
                 try:
                     self._block(st.body)
